@@ -1069,13 +1069,27 @@ def consts_of(t, out):
     return out
 
 
+_NAMES = {}
+_NAMES_KEEP = []
+
+
+def names_of(t):
+    """names of the uninterpreted constants of a term (cached by AST id; the term is kept alive so ids stay unique)"""
+    i = t.get_id()
+    ns = _NAMES.get(i)
+    if ns is None:
+        ns = frozenset(consts_of(t, {}))
+        _NAMES[i] = ns
+        _NAMES_KEEP.append(t)
+    return ns
+
+
 def relevant_pc(pc, roots):
     """cone of influence: conjuncts of pc that (transitively) share a symbol with the root terms"""
-    names = {}
+    want = set()
     for r in roots:
-        consts_of(r, names)
-    want = set(names)
-    rest = [(c, set(consts_of(c, {}))) for c in pc]
+        want |= names_of(r)
+    rest = [(c, names_of(c)) for c in pc]
     keep = []
     changed = True
     while changed:
